@@ -233,11 +233,10 @@ def iterDefaultSpec (emp : π → Bool) (mk : π) (cfg : Cfg) (f : Fib Int π) :
 
 /-! ### lazy fibers: `project`, `prune`, `fromLazy` -/
 
-inductive Err | stopIteration | assertion
+inductive Err | assertion
   deriving DecidableEq, Repr
 
 def Err.toString : Err → String
-  | .stopIteration => "ERR:StopIteration"
   | .assertion => "rejected"
 
 /-- the affine coordinate transform `c ↦ k*c + m` on a list of elements -/
@@ -263,10 +262,11 @@ def projStartOk (iv : Option (Int × Int)) (sp : Option Nat) (f : Fib Int π) : 
         | some x => decide (x.1 < lo)
         | none => false))
 
-/-- the reversed wrapper: `Fiber.fromIterator(reversed_iterator)` presents `reversed(cps)` through
-    its own `__iter__`, i.e. filtered with the *wrapper's* emptiness test `wemp` (default 0) -/
-def revInner (wemp : π → Bool) (f : Fib Int π) : Fib Int (Option Nat × π) :=
-  stored (rangeLoop (fun ip => wemp ip.2) none none (withPos f).reverse)
+/-- the reversed wrapper: `Fiber.fromIterator(reversed_iterator, default=self.getDefault())`
+    presents `reversed(cps)` through its own `__iter__` (format "C"), i.e. the non-empty elements
+    in reversed storage order -/
+def revInner (emp : π → Bool) (f : Fib Int π) : Fib Int (Option Nat × π) :=
+  stored (rangeLoop (fun ip => emp ip.2) none none (withPos f).reverse)
 
 /-- a traversal of a lazy fiber: `iterRange(os, oe)` (plain `__iter__`: no bounds) runs the range
     loop over what a fresh instance of the fiber's iterator class delivers; a lazy fiber has
@@ -274,24 +274,23 @@ def revInner (wemp : π → Bool) (f : Fib Int π) : Fib Int (Option Nat × π) 
 def lazyIter {ρ : Type} (emp : ρ → Bool) (os oe : Option Int) (raw : Fib Int ρ) : Fib Int ρ :=
   rangeLoop emp os oe raw
 
-/-- what a fresh `project_iterator` of the lazy fiber returned by `project` delivers -/
-def projectRaw (emp wemp : π → Bool) (mk : π) (cfg : Cfg) (k m : Int) (iv : Option (Int × Int))
+/-- what a fresh `project_iterator` of the lazy fiber returned by `project` delivers.
+    (`coord_ex` only decides between integer and tuple coordinates; with integer coordinates the
+    reversal test is `trans_fn(0) > trans_fn(1)`.) -/
+def projectRaw (emp : π → Bool) (mk : π) (cfg : Cfg) (k m : Int) (iv : Option (Int × Int))
     (sp : Option Nat) (f : Fib Int π) : Except Err (Fib Int (Option Nat × π)) :=
-  -- `coord_ex, _ = next(self.iterOccupancy(tick=False))` when `len(self) > 0`
-  if !f.isEmpty && (f.filter (fun x => !emp x.2)).isEmpty then .error .stopIteration
-  else
-    let rev := decide (k * 0 + m > k * 1 + m)
-    if rev then
-      -- `assert not fiber.isLazy()` when a start position is given
-      if sp.isSome then .error .assertion
-      else .ok (ivLoop iv (transF k m (revInner wemp f)))
-    else if !projStartOk iv sp f then .error .assertion
-    else .ok (ivLoop iv (transF k m (iterDefault emp mk cfg sp f)))
+  let rev := decide (k * 0 + m > k * 1 + m)
+  if rev then
+    -- `assert not fiber.isLazy()` when a start position is given
+    if sp.isSome then .error .assertion
+    else .ok (ivLoop iv (transF k m (revInner emp f)))
+  else if !projStartOk iv sp f then .error .assertion
+  else .ok (ivLoop iv (transF k m (iterDefault emp mk cfg sp f)))
 
 /-- `for c, p in f.project(…)` (resp. `.iterRange(os, oe)` of the result) -/
-def project (emp wemp : π → Bool) (mk : π) (cfg : Cfg) (k m : Int) (iv : Option (Int × Int))
+def project (emp : π → Bool) (mk : π) (cfg : Cfg) (k m : Int) (iv : Option (Int × Int))
     (sp : Option Nat) (os oe : Option Int) (f : Fib Int π) : Except Err (Fib Int (Option Nat × π)) :=
-  (projectRaw emp wemp mk cfg k m iv sp f).map (lazyIter (fun x => emp x.2) os oe)
+  (projectRaw emp mk cfg k m iv sp f).map (lazyIter (fun x => emp x.2) os oe)
 
 def inIv (iv : Option (Int × Int)) (c : Int) : Bool :=
   match iv with
@@ -354,12 +353,6 @@ def fromLazy (dflt : ν) (d : Nat) (ys : Fib Int (Tree Int ν d)) : Tree Int ν 
   (populate dflt d (fun _ _ (bp : Tree Int ν d) => nonEmpty dflt d bp)
     (show Tree Int ν (d + 1) from ([] : List (Int × Tree Int ν d)))
     (ys.filter (fun x => !isEmpty dflt d x.2))).1
-
-/-- the emptiness test of the reversed wrapper of `project` (its default is 0, whatever the
-    source's default is): a leaf is "empty" iff it equals `wd`; a sub-fiber asks itself -/
-def wrapEmpty (dflt wd : ν) : (d : Nat) → Tree Int ν d → Bool
-  | 0, v => decide ((show ν from v) = wd)
-  | d + 1, f => isEmpty dflt (d + 1) f
 
 end mat
 
